@@ -23,12 +23,12 @@ Definition call (L : nat) (w : wavefront (GRS L)) (c : callargs) : result (wavef
                 (c_dur c) (c_duc c) (c_shape c) (c_pshape c) (c_os c) None.
 
 (* one description of the chain: planes (constructor results), then the call *)
-Fixpoint chain_r (L : nat) (ps : list (result (plane (GRS L)))) (w : pwf (GRS L)) : result (pwf (GRS L)) :=
+Fixpoint chain_r (L : nat) (ps : list (result (celem (GRS L)))) (w : pwf (GRS L)) : result (pwf (GRS L)) :=
   match ps with
   | [] => Ok w
-  | rp :: r => rbind (rbind rp (fun P => plane_multiply P w)) (chain_r L r)
+  | rp :: r => rbind (rbind rp (fun e => elem_multiply e w)) (chain_r L r)
   end.
-Definition variant (L : nat) (w0 : pwf (GRS L)) (ps : list (result (plane (GRS L)))) (c : callargs) : list Z :=
+Definition variant (L : nat) (w0 : pwf (GRS L)) (ps : list (result (celem (GRS L)))) (c : callargs) : list Z :=
   match chain_r L ps w0 with
   | Err e => [1; errcode e]
   | Ok w1 =>
@@ -42,10 +42,10 @@ Definition run (inp : list Z) : list Z :=
     if Lz <=? 0 then emalformed else
     let L := Z.to_nat Lz in
     if op =? 1 then
-      match pall (lam <- pQ ;; segs <- plist (p_plane L) ;; monos <- plist (p_plane L) ;; c <- pcall ;;
-                  pret (lam, segs, monos, c)) rest with
-      | Some (lam, segs, monos, c) =>
-          let w0 := pwf_init lam PixNone None [] in
+      match pall (lam <- pQ ;; tl <- plist ptilt ;; segs <- plist (p_plane L) ;; monos <- plist (p_plane L) ;; c <- pcall ;;
+                  pret (lam, tl, segs, monos, c)) rest with
+      | Some (lam, tl, segs, monos, c) =>
+          let w0 := pwf_init lam PixNone None tl in     (* Wavefront(lam, tilt=[rx, ry]) carries one Tilt *)
           0 :: variant L w0 segs c ++ variant L w0 monos c
       | None => emalformed end
     else if op =? 4 then   (* one segmented pupil with per-segment tilts: the views after the propagation *)
